@@ -56,6 +56,10 @@ fn variant(e: &Error) -> String {
 }
 
 pub fn install_quiet_panic_hook() {
+    // ZKV_LOUD=1 keeps the default hook (to see where a harness panic comes from)
+    if std::env::var("ZKV_LOUD").is_ok() {
+        return;
+    }
     std::panic::set_hook(Box::new(|_| {}));
 }
 
